@@ -7,6 +7,8 @@ import (
 	"time"
 
 	"seehuhn.de/go/postscript"
+	"seehuhn.de/go/postscript/type1"
+	"seehuhn.de/go/postscript/type1/names"
 
 	"verif/mc"
 	"verif/model/corpus"
@@ -22,17 +24,17 @@ import (
 // reader and the CMap reader.  Oracle: each call returns exactly what it
 // returns when it runs alone.
 
-// yieldReader delivers data in chunks; s == nil means free-running.
+// yieldReader delivers data in chunks; yield == nil means free-running.
 type yieldReader struct {
-	s     *sched
+	yield func()
 	data  []byte
 	pos   int
 	chunk int
 }
 
 func (r *yieldReader) Read(p []byte) (int, error) {
-	if r.s != nil {
-		r.s.Yield() // the caller is blocked in Read, nothing delivered yet
+	if r.yield != nil {
+		r.yield() // the caller is blocked in Read, nothing delivered yet
 	}
 	if r.pos >= len(r.data) {
 		return 0, io.EOF
@@ -40,27 +42,67 @@ func (r *yieldReader) Read(p []byte) (int, error) {
 	n := min(len(p), r.chunk)
 	n = copy(p[:n], r.data[r.pos:])
 	r.pos += n
-	if r.s != nil {
-		r.s.Yield() // data is in the caller's buffer, the caller has not seen it yet
+	if r.yield != nil {
+		r.yield() // data is in the caller's buffer, the caller has not seen it yet
 	}
 	return n, nil
 }
 
+// yieldWriter collects output; every `every`-th Write call is a scheduling
+// point before and after the bytes are taken.
+type yieldWriter struct {
+	yield func()
+	every int
+	calls int
+	buf   []byte
+}
+
+func (w *yieldWriter) Write(p []byte) (int, error) {
+	w.calls++
+	at := w.yield != nil && w.calls%w.every == 0
+	if at {
+		w.yield()
+	}
+	w.buf = append(w.buf, p...)
+	if at {
+		w.yield()
+	}
+	return len(p), nil
+}
+
 type overlapWork struct {
 	name  string
-	data  []byte
+	data  []byte // input of a reading call (nil for writers and look-ups)
 	chunk int
-	run   func(r io.Reader) string
+	run   func(r io.Reader, yield func()) string
+}
+
+func (w overlapWork) call(yield func()) string {
+	return w.run(&yieldReader{yield: yield, data: w.data, chunk: w.chunk}, yield)
 }
 
 func overlapWorks() []overlapWork {
-	raw := func(r io.Reader) string {
+	raw := func(r io.Reader, _ func()) string {
 		intp := postscript.NewInterpreter()
 		err := intp.Execute(r)
 		return pscmp.Canon(opTable, intp) + fmt.Sprint(" err=", err)
 	}
-	font := func(r io.Reader) string { return observe.Run("font", r).Obs }
-	cmap := func(r io.Reader) string { return observe.Run("cmap", r).Obs }
+	kind := func(k string) func(io.Reader, func()) string {
+		return func(r io.Reader, _ func()) string { return observe.Run(k, r).Obs }
+	}
+	font, cmap := kind("font"), kind("cmap")
+	maybe := func(yield func()) {
+		if yield != nil {
+			yield()
+		}
+	}
+	fontWriter := func(format type1.FileFormat, every int) func(io.Reader, func()) string {
+		return func(_ io.Reader, yield func()) string {
+			w := &yieldWriter{yield: yield, every: every}
+			err := corpus.SampleFont().Write(w, &type1.WriterOptions{Format: format})
+			return fmt.Sprintf("%x err=%v", w.buf, err)
+		}
+	}
 	var eexecTiny, eexecHex []byte
 	for _, in := range corpus.Programs() {
 		switch in.Name {
@@ -78,13 +120,46 @@ func overlapWorks() []overlapWork {
 		{"type1.Read(pfa)", corpus.Fonts()[0].Data, 700, font},
 		{"type1.Read(noeexec)", corpus.Fonts()[3].Data, 900, font},
 		{"ReadCMap", corpus.CMaps()[0].Data, 200, cmap},
+		// from here on: writers, the other readers and the name tables
+		{"Font.Write(pfa, default options)", nil, 0, func(_ io.Reader, yield func()) string {
+			w := &yieldWriter{yield: yield, every: 12}
+			err := corpus.SampleFont().Write(w, nil)
+			return fmt.Sprintf("%x err=%v", w.buf, err)
+		}},
+		{"Font.Write(pfb)", nil, 0, fontWriter(type1.FormatPFB, 12)},
+		{"Font.Write(noeexec)", nil, 0, fontWriter(type1.FormatNoEExec, 12)},
+		{"Font.WritePDF", nil, 0, func(_ io.Reader, yield func()) string {
+			w := &yieldWriter{yield: yield, every: 12}
+			l1, l2, err := corpus.SampleFont().WritePDF(w)
+			return fmt.Sprintf("%x %d %d err=%v", w.buf, l1, l2, err)
+		}},
+		{"Metrics.Write", nil, 0, func(_ io.Reader, yield func()) string {
+			w := &yieldWriter{yield: yield, every: 6}
+			err := corpus.SampleMetrics().Write(w)
+			return fmt.Sprintf("%x err=%v", w.buf, err)
+		}},
+		{"afm.Read", corpus.AFMs()[1].Data, 300, kind("afm")},
+		{"pfb decoding", corpus.PFBs()[0].Data, 40, kind("pfb")},
+		{"name look-ups", nil, 0, func(_ io.Reader, yield func()) string {
+			var sb strings.Builder
+			for _, n := range []string{"A", "f_f_i.alt", "a62", "uni00410042", "dalethatafpatah"} {
+				maybe(yield)
+				fmt.Fprintf(&sb, "%s=%v/%v ", n, names.ToUnicode(n, false), names.ToUnicode(n, true))
+			}
+			for _, r := range []rune{'A', 0x2026, 0xFB01} {
+				maybe(yield)
+				fmt.Fprintf(&sb, "%x=%s ", r, names.FromUnicode(r))
+			}
+			return sb.String()
+		}},
 	}
 	return ws
 }
 
-func overlapFamily(preempt int, budget time.Duration) mc.Family {
+func overlapFamily(preempt int, allHist bool, budget time.Duration) mc.Family {
 	ws := overlapWorks()
-	for _, w := range ws {
+	const nReaders = 7 // the first seven are the interpreter-based readers
+	for _, w := range ws[:nReaders] {
 		if len(w.data) == 0 {
 			panic("overlap: missing corpus input for " + w.name)
 		}
@@ -95,36 +170,50 @@ func overlapFamily(preempt int, budget time.Duration) mc.Family {
 	}
 	hists := []hist{
 		{"no history", func() {}},
-		{"one eexec program", func() { ws[2].run(&yieldReader{data: ws[2].data, chunk: 512}) }},
+		{"one eexec program", func() { ws[2].run(&yieldReader{data: ws[2].data, chunk: 512}, nil) }},
 		{"two eexec programs and a font", func() {
-			ws[2].run(&yieldReader{data: ws[2].data, chunk: 512})
-			ws[3].run(&yieldReader{data: ws[3].data, chunk: 3})
-			ws[4].run(&yieldReader{data: ws[4].data, chunk: 512})
+			ws[2].run(&yieldReader{data: ws[2].data, chunk: 512}, nil)
+			ws[3].run(&yieldReader{data: ws[3].data, chunk: 3}, nil)
+			ws[4].run(&yieldReader{data: ws[4].data, chunk: 512}, nil)
 		}},
 		{"font, CMap and a failing program", func() {
-			ws[5].run(&yieldReader{data: ws[5].data, chunk: 512})
-			ws[6].run(&yieldReader{data: ws[6].data, chunk: 512})
-			ws[0].run(strings.NewReader("1 (a) add"))
+			ws[5].run(&yieldReader{data: ws[5].data, chunk: 512}, nil)
+			ws[6].run(&yieldReader{data: ws[6].data, chunk: 512}, nil)
+			ws[0].run(strings.NewReader("1 (a) add"), nil)
+		}},
+		{"every writer and the remaining readers", func() {
+			for _, w := range ws[nReaders:] {
+				w.call(nil)
+			}
 		}},
 	}
-	type pair struct{ a, b int }
+	// items: reader pairs after every history; pairs involving a writer, another
+	// reader or the name tables from a clean state, after the eexec history and
+	// after the writer history
+	type pair struct{ a, b, h int }
 	var pairs []pair
 	for a := range ws {
 		for b := a; b < len(ws); b++ {
-			pairs = append(pairs, pair{a, b})
+			for h := range hists {
+				if b >= nReaders && (h == 1 || h == 3) && !allHist {
+					continue
+				}
+				pairs = append(pairs, pair{a, b, h})
+			}
 		}
 	}
 	var solo []string
 	return mc.Family{
-		Name: "overlapping-executions", Items: len(pairs) * len(hists), MaxDev: preempt, Budget: budget,
-		Rule: fmt.Sprintf("%d unordered pairs (incl. twice the same) of calls {2 raw programs, 2 eexec programs, type1.Read of a PFA and of a clear-text font, ReadCMap} on distinct instances in 2 goroutines x %d histories {none, one eexec program, two eexec programs and a font, font + CMap + failing program}; each input arrives in chunks through a reader that is a scheduling point before and after every delivery; every interleaving with <= %d preemptions (first thread free); oracle: both results equal the results of the same calls running alone; the sync shim's Pool is a deterministic LIFO (a legal sync.Pool); non-trivial = at least one preemption or both threads ran", len(pairs), len(hists), preempt),
+		Name: "overlapping-executions", Items: len(pairs), MaxDev: preempt, Budget: budget,
+		Rule: fmt.Sprintf("%d items = unordered pairs (incl. twice the same) of %d calls {2 raw programs, 2 eexec programs, type1.Read of a PFA and of a clear-text font, ReadCMap | Font.Write with default options / PFB / clear text, Font.WritePDF, Metrics.Write, afm.Read, PFB decoding, 8 name look-ups} on distinct instances in 2 goroutines x histories {none, one eexec program, two eexec programs and a font, font + CMap + failing program, every writer and the remaining readers} (pairs of the first seven after every history, the others after three of them%s); inputs arrive in chunks through readers, output leaves through writers (every 6th/12th call), look-ups are separated by explicit points: each is a scheduling point before and after the data moves; every interleaving with <= %d preemptions (first thread free); oracle: both results equal the results of the same calls running alone, and no two accesses to a package-level variable of the library, a lock-guarded field or a map in a package with locks, one of them a write, are unordered by happens-before (vector clocks over every hooked access; hooks generated from the typed AST: build/gen-c18-sites.json); the sync shim's Pool is a deterministic LIFO (a legal sync.Pool); non-trivial = every execution (both threads run)", len(pairs), len(ws), map[bool]string{true: "; thorough: all five", false: ""}[allHist], preempt),
 		Body: func(c *mc.Ctx, item int) mc.Verdict {
 			if solo == nil {
 				for _, w := range ws {
-					solo = append(solo, w.run(&yieldReader{data: w.data, chunk: w.chunk}))
+					solo = append(solo, w.call(nil))
 				}
 			}
-			pr, h := pairs[item%len(pairs)], hists[item/len(pairs)]
+			pr := pairs[item]
+			h := hists[pr.h]
 			h.run()
 			idx := []int{pr.a, pr.b}
 			results := make([]string, 2)
@@ -134,7 +223,7 @@ func overlapFamily(preempt int, budget time.Duration) mc.Family {
 				ti := ti
 				bodies = append(bodies, func() {
 					w := ws[idx[ti]]
-					results[ti] = w.run(&yieldReader{s: s, data: w.data, chunk: w.chunk})
+					results[ti] = w.call(s.Yield)
 				})
 			}
 			s = newSched(c, bodies)
@@ -169,8 +258,8 @@ func overlapFamily(preempt int, budget time.Duration) mc.Family {
 			return v
 		},
 		Describe: func(item int) string {
-			pr := pairs[item%len(pairs)]
-			return fmt.Sprintf("%s | %s after %s", ws[pr.a].name, ws[pr.b].name, hists[item/len(pairs)].name)
+			pr := pairs[item]
+			return fmt.Sprintf("%s | %s after %s", ws[pr.a].name, ws[pr.b].name, hists[pr.h].name)
 		},
 		CrashKey: func(item int) string { return "C18:crash:overlap" },
 	}
